@@ -359,6 +359,14 @@ def check(plan: Dict[str, Any], execution: Dict[str, Any], props: Optional[Set[s
                         res.probe("format_changed_by_write_trace")
             elif kind == "update_rank":
                 before = ws.files.get(o["path"])
+                if o["path"] not in obs["files"] and before is not None and before.get("doc") is not None:
+                    # the call returned but the bytes on disk did not change
+                    res.oracle_evals += 1
+                    res.nontrivial = True
+                    di = before["doc"].get("distributedInfo")
+                    if not (isinstance(di, dict) and di.get("rank") == o["rank"]):
+                        res.violate("C20", "rank-not-recorded/update_rank",
+                                    {"file": o["path"], "rank": o["rank"], "had_distributedInfo": isinstance(di, dict)}, si, r["i"])
                 for name, info in obs["files"].items():
                     fmt = "gz" if name.endswith(".gz") else "json"
                     if not info.get("valid"):
